@@ -5,6 +5,7 @@ from fractions import Fraction as Fr
 
 import boards
 import gen
+from crlib import repo
 from modelclient import fbits, bits_to_float
 
 P1, P2, PR = gen.P1, gen.P2, gen.PR
@@ -246,6 +247,8 @@ def run(ctx, model=None):
                 return
     ctx.extra["exhaustive_small"] = f"all arrow x loose layouts for shapes {shapes}"
     rerun_same_directory(ctx, rng)
+    manual_rerun_same_directory(ctx, rng)
+    fractional_rewards(ctx, rng)
     boards.generator_environment(ctx, "file-independent-of-environment",
                                  [["--seed=4", "--width=2", "--length=3"], ["--seed=9", "--width=3", "--length=2", "-f", "--prob_robot_break=0.104"]])
     big = [(3, 3), (5, 1), (1, 5), (4, 2), (6, 6), (10, 9), (2, 49), (12, 11), (21, 20)] if ctx.quick() else \
@@ -275,8 +278,65 @@ def rerun_same_directory(ctx, rng):
             ctx.violation("second-run-rewrites-the-file", inp, {"outcome": again["outcome"], "same_as_first_run": again["files"] == r1["files"]})
 
 
+def manual_rerun_same_directory(ctx, rng):
+    """create_sg_from_board called twice in one directory with two DIFFERENT boards whose file name is the same
+    (the name states sizes, maximum reward, force-down and whole-percent probabilities, not the layout): the file
+    must hold the games of the second board.  Also: a first call that fails half-way (invalid arrow) leaves a
+    partial file that the corrected board must replace."""
+    sg = repo("stochastic_game_from_roborta_board")
+    cr = repo("conditionalrewards")
+    for k in range(3 if ctx.quick() else 30):
+        L, W = rng.randint(1, 3), rng.randint(2, 3)
+        mv1, rw1, ls1 = boards.random_board(rng, L, W, False, max_reward=3)
+        mv2 = [[(x + 1) % 3 for x in row] for row in mv1]                  # another layout, same maximum arrow
+        for row in (mv1, mv2):
+            row[0][0] = 2
+        rw2 = [list(reversed(r)) for r in rw1]
+        rw1[0][0] = rw2[0][0] = 3
+        first = (mv1, rw1, ls1) if k % 3 else ([[4] + r[1:] for r in mv1], rw1, ls1)   # k % 3 == 0: invalid arrow 4
+        r1 = boards.run_generator(call=lambda _rg: sg.create_sg_from_board(first[0], first[1], first[2], 0.1, 0.1, 0.1))
+        fresh = boards.run_generator(call=lambda _rg: sg.create_sg_from_board(mv2, rw2, ls1, 0.1, 0.1, 0.1))
+        again = boards.run_generator(call=lambda _rg: sg.create_sg_from_board(mv2, rw2, ls1, 0.1, 0.1, 0.1), pre_files=r1["files"])
+        inp = {"first_board": [first[0], first[1], ls1], "second_board": [mv2, rw2, ls1], "entry": "create_sg_from_board"}
+        ctx.case(inp, True)
+        if fresh["outcome"] != "ok":
+            continue
+        new = {k_: v for k_, v in again["files"].items() if k_ in fresh["files"]}
+        if again["outcome"] != "ok" or new != fresh["files"]:
+            ctx.violation("second-run-rewrites-the-file", inp, {"outcome": again["outcome"], "first_outcome": r1["outcome"],
+                                                                "same_as_first_run": new == {k_: v for k_, v in r1["files"].items() if k_ in fresh["files"]}})
+            return
+
+
+def fractional_rewards(ctx, rng):
+    """rewards are numbers, not necessarily whole: the light state of a tile carries the tile's reward as given"""
+    for k in range(2 if ctx.quick() else 20):
+        L, W = rng.randint(1, 2), rng.randint(1, 3)
+        mv, rw, ls = boards.random_board(rng, L, W, False)
+        rw = [[rng.choice([2.5, 0.75, 1, 0, 3.25]) for _ in range(W)] for _ in range(L)]
+        try:
+            games, _ = boards.games_of_board(mv, rw, ls, 0.1, 0.1, 0.1)
+        except Exception as e:  # noqa
+            ctx.violation("tile-rewards", {"moves": mv, "rewards": rw, "loose": ls, "pt": 0.1, "pr": 0.1, "pl": 0.1}, {"error": type(e).__name__, "msg": str(e)[:200]})
+            return
+        ctx.case({"moves": mv, "rewards": rw, "loose": ls, "fractional_rewards": True}, True)
+        flat = [x for row in rw for x in row]
+        for name in ("game_a", "game_b", "game_c"):
+            got = games[name]["rewards"][:L * W]
+            if got != flat or any(x != 0 for x in games[name]["rewards"][L * W:]):
+                ctx.violation("tile-rewards", {"moves": mv, "rewards": rw, "loose": ls, "pt": 0.1, "pr": 0.1, "pl": 0.1, "fractional_rewards": True},
+                              {"game": name, "light_state_rewards": got, "board": flat})
+                return
+
+
 def replay(ctx, viol):
     i = viol["input"]
+    if i.get("entry") == "create_sg_from_board":
+        manual_rerun_same_directory(ctx, random.Random(1))
+        return
+    if i.get("fractional_rewards"):
+        fractional_rewards(ctx, random.Random(1))
+        return
     if "argv" in i:
         boards.generator_environment(ctx, viol["clause"], [i["argv"]])
         return
